@@ -251,6 +251,9 @@ var poolCalls = []poolCall{
 	{"odd-open-int", func() string { return string(redact.Sprint(redact.RedactableString("a‹"), 1)) }},
 	{"odd-envelope-empty", func() string { return string(redact.Sprintf("%v%v", redact.RedactableString("‹x›"), "")) }},
 	{"odd-empty", func() string { return string(redact.Sprintf("%s", "")) }},
+	// directives without a width right after calls that had one: precision 0 on the value 0 prints nothing but padding
+	{"zero-prec", func() string { return string(redact.Sprintf("[%.0d|%.0x|%.0o|%.d]", 0, 0, 0, 0)) }},
+	{"widths", func() string { return string(redact.Sprintf("%8d|%-12s|%*d|%012.3f", 1, "s", 9, 2, 3.5)) }},
 }
 
 // ---- pool events ---------------------------------------------------------------
@@ -354,6 +357,19 @@ type poolCase struct {
 	Kind    string   `json:"kind"`
 	History []string `json:"history"`
 	Probe   string   `json:"probe"`
+}
+
+// two call kinds of one name would make the fresh-process expectation of one stand for the other: a mistake in the
+// table must never turn into a verdict about redact
+func init() {
+	seen := map[string]bool{}
+	for _, c := range poolCalls {
+		if seen[c.name] {
+			fmt.Fprintf(os.Stderr, "HARNESS-CONFIG-ERROR: two pool call kinds are named %q\n", c.name)
+			os.Exit(3)
+		}
+		seen[c.name] = true
+	}
 }
 
 func callByName(name string) poolCall {
